@@ -21,7 +21,9 @@ import (
 	"strconv"
 	"strings"
 	"sync"
+	"syscall"
 	"testing"
+	"testing/synctest"
 	"time"
 
 	"pgregory.net/rapid"
@@ -68,6 +70,21 @@ type Spec[P any] struct {
 	// Sample returns a compact description of a plan for evidence samples
 	// (default: the plan's JSON, truncated).
 	Sample func(p P) any
+	// Bubble runs the whole check inside one testing/synctest bubble (virtual
+	// time, runtime-proved deadlock detection). All cases of a process share the
+	// bubble because Pebble pools objects holding channels across DB instances.
+	Bubble bool
+}
+
+type tbWrap struct{ *testing.T }
+
+// realNow returns wall-clock time even inside a synctest bubble.
+func realNow() time.Time {
+	var tv syscall.Timeval
+	if err := syscall.Gettimeofday(&tv); err != nil {
+		return time.Now()
+	}
+	return time.Unix(tv.Sec, int64(tv.Usec)*1000)
 }
 
 // Env is the run configuration taken from the environment.
@@ -226,8 +243,16 @@ func writeFileAtomic(path string, b []byte) error {
 
 // Run executes the check. It must be called from a Test function.
 func Run[P any](t *testing.T, s Spec[P]) {
+	if s.Bubble {
+		synctest.Test(t, func(t *testing.T) { run(t, s) })
+		return
+	}
+	run(t, s)
+}
+
+func run[P any](t *testing.T, s Spec[P]) {
 	env := GetEnv()
-	start := time.Now()
+	start := realNow()
 	col := newCollector()
 	violations := 0
 	var violationLines []string
@@ -336,7 +361,7 @@ func Run[P any](t *testing.T, s Spec[P]) {
 			"level":       s.Level,
 			"coverage":    cov,
 			"assumptions": s.Assumptions,
-			"wall_s":      time.Since(start).Seconds(),
+			"wall_s":      realNow().Sub(start).Seconds(),
 			"violations":  violations,
 		}
 		b, _ := json.MarshalIndent(ev, "", " ")
@@ -416,6 +441,7 @@ func Run[P any](t *testing.T, s Spec[P]) {
 	var bestFail []byte
 	var bestErr error
 	failed := false
+	var firstFail time.Time
 
 	defer func() {
 		os.Remove(inflight)
@@ -427,7 +453,15 @@ func Run[P any](t *testing.T, s Spec[P]) {
 		}
 	}()
 
-	rapid.Check(t, func(rt *rapid.T) {
+	// tbWrap hides *testing.T from rapid so that it does not call t.Deadline
+	// (which panics inside a synctest bubble).
+	rapid.Check(tbWrap{t}, func(rt *rapid.T) {
+		if failed && realNow().Sub(firstFail) > shrink {
+			// real-time shrinking budget exhausted (rapid's own budget uses the
+			// possibly virtual clock): make every further candidate pass so that
+			// the shrinker stops; the smallest failing plan is already saved.
+			return
+		}
 		p := s.Gen(rt)
 		js, err := json.Marshal(p)
 		if err != nil {
@@ -439,6 +473,9 @@ func Run[P any](t *testing.T, s Spec[P]) {
 			record(p, js, out)
 		}
 		if err != nil {
+			if !failed {
+				firstFail = realNow()
+			}
 			failed = true
 			// keep the last failing plan: rapid re-runs the minimal one last.
 			bestFail, bestErr = js, err
